@@ -308,6 +308,7 @@ impl<'a> Runner<'a> {
     pub fn step_injected(&mut self, op: &Op, k: usize, ek: Option<i64>, modelled: bool) -> bool {
         let coll = self.coll.clone();
         let pre_state = self.real.state();
+        let pre_raw = if self.raw { self.real.raw() } else { None };
         let pre_entries = self.real.entries().unwrap_or_default();
         // clean twin to learn the contents after the completed operation
         let post_entries = {
@@ -337,7 +338,16 @@ impl<'a> Runner<'a> {
             return false;
         }
         let post_state = self.real.state();
-        if modelled && self.emit {
+        if modelled && self.emit && self.raw {
+            // arena level: the raw arena the panic leaves behind must be, field by field, the arena the
+            // instrumented pointer-code model records for that callback
+            if let (Some(pre), Some(post)) = (pre_raw, self.real.raw()) {
+                writeln!(self.out.req, "a{} {} | {} | {} | inj {}", coll, op.text(), pre, self.real.dflt(), k).unwrap();
+                writeln!(self.out.exp, "out=panic | st={} | tr=", post).unwrap();
+                writeln!(self.out.ctx, "H{} {}", self.hid, self.ops.len() - 1).unwrap();
+                self.out.lines += 1;
+            }
+        } else if modelled && self.emit {
             let pre = pre_state.unwrap_or_else(|e| format!("ABSFAIL {}", e));
             let post = match &post_state { Ok(s) => s.clone(), Err(e) => format!("ABSFAIL {}", e) };
             writeln!(self.out.req, "{} {} | {} | inj {}", coll, op.text(), pre, k).unwrap();
